@@ -21,10 +21,12 @@ Proof.
   cbn [orb] in H. destruct (s_find (f_set f) h); [reflexivity|discriminate].
 Qed.
 
-Theorem request_step g st f h round setid : inv g st f -> snd (bs_highest st) <= setid ->
+(* the pinned body (set id compared after the writes), for a set id that is not below the
+   recorded one *)
+Theorem request_step_late g st f h round setid : inv g st f -> snd (bs_highest st) <= setid ->
   (f_admissible f h = true ->
-     exists st', set_finalised st h round setid = (st', Ok tt) /\ inv g st' (f_fin f h))
-  /\ (f_admissible f h = false -> exists c, set_finalised st h round setid = (st, Err c)).
+     exists st', set_finalised_late st h round setid = (st', Ok tt) /\ inv g st' (f_fin f h))
+  /\ (f_admissible f h = false -> exists c, set_finalised_late st h round setid = (st, Err c)).
 Proof.
   intros I Hsid. split; intros Ha.
   - destruct (N.eq_dec h (s_root (f_set f))) as [Eh|Hne].
@@ -32,6 +34,67 @@ Proof.
     + destruct (fin_data_exists g st f h I Ha Hne) as (m & q & D).
       exact (fin_step g st f h round setid m q I D Hsid).
   - exact (set_finalised_refused g st f h round setid I Ha).
+Qed.
+
+(* the repaired SetFinalisedHash compares the set id before anything is written *)
+Lemma set_finalised_ge st h round setid : snd (bs_highest st) <= setid ->
+  set_finalised st h round setid = set_finalised_late st h round setid.
+Proof.
+  intros H. unfold set_finalised, set_finalised_with, set_finalised_late.
+  destruct (has_header st h) eqn:Hh; cbn [negb].
+  - destruct (N.ltb_spec setid (snd (bs_highest st))) as [|_]; [lia|]. reflexivity.
+  - unfold set_finalised_late_with. rewrite Hh. reflexivity.
+Qed.
+
+Lemma set_finalised_lt st h round setid : setid < snd (bs_highest st) ->
+  exists c, set_finalised st h round setid = (st, Err c).
+Proof.
+  intros H. unfold set_finalised, set_finalised_with.
+  destruct (has_header st h); cbn [negb]; [|eexists; reflexivity].
+  destruct (N.ltb_spec setid (snd (bs_highest st))) as [_|]; [|lia]. eexists; reflexivity.
+Qed.
+
+Lemma late_ok_highest st h round setid st' :
+  set_finalised_late st h round setid = (st', Ok tt) -> bs_highest st' = (round, setid).
+Proof.
+  unfold set_finalised_late, set_finalised_late_with.
+  destruct (has_header st h); cbn [negb]; [|discriminate].
+  destruct (handle_finalised st h) as [st1 [[]|c| |]]; try discriminate.
+  destruct (setid <? snd (bs_highest st1)); [discriminate|].
+  destruct (prune (bs_tree st1) h) as [t' pruned].
+  destruct (drop_pruned pruned (bs_unfin st1) (bs_tries st1)) as [unfin tries].
+  destruct (get_header _ h); [|discriminate].
+  intros E. inversion E. reflexivity.
+Qed.
+
+(* the invariant extended with the set id *)
+Definition inv2 (g : N) (st : bstate) (f : fstate) : Prop :=
+  inv g st f /\ snd (bs_highest st) = f_setid f.
+
+Lemma inv_with_setid g st f sid : inv g st f -> inv g st (f_with_setid f sid).
+Proof. intros I. destruct f as [fs fc fa fsid]. unfold f_with_setid. cbn. destruct I. constructor; auto. Qed.
+
+Lemma inv2_genesis g groot : inv2 g (genesis_state g groot) (f_genesis g groot).
+Proof. split; [apply inv_genesis|reflexivity]. Qed.
+
+Theorem request_step g st f h round setid : inv2 g st f ->
+  (f_accepts f h setid = true ->
+     exists st', set_finalised st h round setid = (st', Ok tt) /\ inv2 g st' (f_request f h setid))
+  /\ (f_accepts f h setid = false -> exists c, set_finalised st h round setid = (st, Err c)).
+Proof.
+  intros (I & Es). split; intros Ha.
+  - unfold f_request. rewrite Ha. unfold f_accepts in Ha. apply andb_true_iff in Ha as (Ha & Hs).
+    apply N.leb_le in Hs. rewrite <- Es in Hs.
+    destruct (request_step_late g st f h round setid I Hs) as (A & _).
+    destruct (A Ha) as (st' & E & I'). exists st'. rewrite (set_finalised_ge _ _ _ _ Hs). split; auto.
+    split; [apply inv_with_setid; exact I'|].
+    rewrite (late_ok_highest _ _ _ _ _ E). reflexivity.
+  - unfold f_accepts in Ha. apply andb_false_iff in Ha as [Ha|Hs].
+    + destruct (N.lt_ge_cases setid (snd (bs_highest st))) as [Hlt|Hge].
+      * apply set_finalised_lt; auto.
+      * rewrite (set_finalised_ge _ _ _ _ Hge).
+        destruct (request_step_late g st f h round setid I Hge) as (_ & B). auto.
+    + apply N.leb_gt in Hs. rewrite <- Es in Hs. apply set_finalised_lt; auto.
 Qed.
 
 (* ------------------------------------------------------------------ observables of a state that satisfies the invariant *)
@@ -54,6 +117,14 @@ Section Observables.
       pose proof (lookup_nodup _ _ _ (i_chain_nodup _ _ _ I) Hh) as L2. congruence.
     - rewrite (hash_by_number_below _ n W) by lia. rewrite Nat.eqb_refl.
       rewrite (i_num _ _ _ I n x Hin). reflexivity.
+  Qed.
+
+  (* the finalised chain is in the database: number index and headers *)
+  Lemma obs_persisted n x : In (n, x) (f_chain f) ->
+    lookup n (bs_num st) = Some x /\ lookup x (bs_hdr st) <> None.
+  Proof.
+    intros Hin. split; [exact (i_num _ _ _ I n x Hin)|].
+    apply (i_hdr _ _ _ I). apply in_map_iff. exists (n, x). auto.
   Qed.
 
   Lemma obs_abandoned x : f_abandoned f x = true ->
@@ -85,13 +156,15 @@ Lemma outcome_n_eqb_refl o : outcome_n_eqb o o = true.
 Proof. destruct o; simpl; auto using N.eqb_refl, Nat.eqb_refl. Qed.
 Lemma flags_eqb_refl x : flags_eqb x x = true.
 Proof. unfold flags_eqb. rewrite !eqb_reflx. reflexivity. Qed.
+Lemma option_n_eqb_refl o : option_n_eqb o o = true.
+Proof. destruct o; simpl; auto using N.eqb_refl. Qed.
 Lemma list_eqb_refl_gen {A} (e : A -> A -> bool) l : (forall x, e x x = true) -> Spec.list_eqb e l l = true.
 Proof. intros H. induction l; simpl; auto. rewrite H, IHl. reflexivity. Qed.
 Lemma obs_eqb_refl o : obs_eqb o o = true.
 Proof.
   unfold obs_eqb. rewrite outcome_n_eqb_refl, N.eqb_refl, !list_eqb_refl_gen; auto.
-  - intros [x fl]. simpl. rewrite N.eqb_refl, flags_eqb_refl. reflexivity.
-  - intros [x r]. simpl. rewrite N.eqb_refl, outcome_n_eqb_refl. reflexivity.
+  all: intros [x r]; simpl; rewrite N.eqb_refl;
+    first [apply flags_eqb_refl | apply option_n_eqb_refl | apply outcome_n_eqb_refl].
 Qed.
 
 Lemma lookup_map_fun {V} (F : N -> V) nums n r :
@@ -110,7 +183,8 @@ Lemma check_after g st' f' blocks nums : inv g st' f' -> roots_ok f' blocks ->
   /\ check_no_leftovers f' (observe st' blocks nums) = true.
 Proof.
   intros I' Hroots. split.
-  - unfold check_by_number, observe. cbn [o_bynum]. apply andb_true_iff. split; apply forallb_forall.
+  - unfold check_by_number, observe. cbn [o_bynum o_dbnum]. rewrite !andb_true_iff.
+    split; [split|]; apply forallb_forall.
     + intros [n r] Hin. apply in_map_iff in Hin as (k & Ek & _). inversion Ek; subst. cbn [fst snd].
       destruct (lookup n (f_chain f')) as [x|] eqn:El; auto. apply lookup_in in El.
       rewrite (obs_by_number g st' f' I' n x El). apply outcome_n_eqb_refl.
@@ -118,6 +192,10 @@ Proof.
       destruct (lookup n (map (fun k => (k, bs_hash_by_number st' k)) nums)) as [r|] eqn:El; auto.
       apply lookup_map_fun in El. subst r. rewrite (obs_by_number g st' f' I' n x Hin).
       apply outcome_n_eqb_refl.
+    + intros [n x] Hin. cbn [fst snd].
+      destruct (lookup n (map (fun k => (k, lookup k (bs_num st'))) nums)) as [r|] eqn:El; auto.
+      apply lookup_map_fun in El. subst r. rewrite (proj1 (obs_persisted g st' f' I' n x Hin)).
+      apply option_n_eqb_refl.
   - unfold check_no_leftovers, observe. cbn [o_flags]. apply forallb_forall.
     intros [x fl] Hin. apply in_map_iff in Hin as ([x0 r0] & Ek & Hb). inversion Ek; subst. cbn [fst snd].
     destruct (f_abandoned f' x) eqn:Ab; auto.
@@ -130,19 +208,30 @@ Qed.
 
 Definition is_okb {A} (o : outcome A) : bool := match o with Ok _ => true | _ => false end.
 
+Lemma f_request_set f h setid : f_accepts f h setid = true ->
+  f_set (f_request f h setid) = f_set (f_fin f h)
+  /\ f_chain (f_request f h setid) = f_chain (f_fin f h)
+  /\ f_all (f_request f h setid) = f_all (f_fin f h).
+Proof. intros H. unfold f_request. rewrite H. auto. Qed.
+
+Lemma inv_without_setid g st f sid : inv g st (f_with_setid f sid) -> inv g st f.
+Proof. intros I. destruct f as [fs fc fa fsid]. unfold f_with_setid in I. cbn in I. destruct I. constructor; auto. Qed.
+
 Theorem check_finalisation_holds g st f h round setid blocks nums :
-  inv g st f -> snd (bs_highest st) <= setid -> roots_ok (f_fin f h) blocks ->
-  check_finalisation f h (is_okb (snd (set_finalised st h round setid)))
+  inv2 g st f -> roots_ok (f_fin f h) blocks ->
+  check_finalisation f h setid (is_okb (snd (set_finalised st h round setid)))
                      (observe st blocks nums)
                      (observe (fst (set_finalised st h round setid)) blocks nums) = true.
 Proof.
-  intros I Hsid Hroots. destruct (request_step g st f h round setid I Hsid) as (Hadm & Href).
-  unfold check_finalisation, check_request. destruct (f_admissible f h) eqn:Ha.
-  - destruct (Hadm eq_refl) as (st' & Eres & I'). rewrite Eres. cbn [fst snd is_okb].
+  intros I Hroots. destruct (request_step g st f h round setid I) as (Hadm & Href).
+  unfold check_finalisation, check_request. destruct (f_accepts f h setid) eqn:Ha.
+  - destruct (Hadm eq_refl) as (st' & Eres & (I' & _)). rewrite Eres. cbn [fst snd is_okb].
+    unfold f_request in I'. rewrite Ha in I'. apply inv_without_setid in I'.
     destruct (check_after g st' (f_fin f h) blocks nums I' Hroots) as (C1 & C2).
     rewrite C1, C2. cbn [andb]. rewrite andb_true_r.
-    unfold observe. cbn [o_highest]. rewrite (obs_highest g st' _ I'), (f_fin_root f h Ha).
-    apply outcome_n_eqb_refl.
+    unfold observe. cbn [o_highest]. rewrite (obs_highest g st' _ I').
+    unfold f_accepts in Ha. apply andb_true_iff in Ha as (Ha & _).
+    rewrite (f_fin_root f h Ha). apply outcome_n_eqb_refl.
   - destruct (Href eq_refl) as (c & Eres). rewrite Eres. cbn [fst snd is_okb negb andb].
     rewrite obs_eqb_refl. reflexivity.
 Qed.
@@ -152,7 +241,7 @@ Qed.
 Definition f_step (f : fstate) (o : sop) : fstate :=
   match o with
   | SAdd hd root a => fst (f_add f hd root a)
-  | SFin h _ _ => f_fin f h
+  | SFin h _ setid => f_request f h setid
   end.
 
 Fixpoint frun (f : fstate) (ops : list sop) : fstate :=
@@ -161,39 +250,41 @@ Fixpoint frun (f : fstate) (ops : list sop) : fstate :=
   | o :: r => frun (f_step f o) r
   end.
 
-(* the histories covered: no added header carries the genesis hash (hash collisions are
-   excluded), and no request carries a set id below the highest one recorded *)
-Fixpoint history_ok (g : N) (st : bstate) (ops : list sop) : Prop :=
+(* the histories covered: no added header carries the genesis hash (a hash collision with
+   genesis; the code compares sub-chain hashes with bs.genesisHash).  Nothing is assumed about
+   the requests: targets, rounds and set ids are arbitrary. *)
+Fixpoint history_ok (g : N) (ops : list sop) : Prop :=
   match ops with
   | [] => True
   | o :: r =>
     match o with
     | SAdd hd _ _ => h_hash hd <> g
-    | SFin _ _ setid => snd (bs_highest st) <= setid
-    end /\ history_ok g (fst (sstep st o)) r
+    | SFin _ _ _ => True
+    end /\ history_ok g r
   end.
 
-Lemma inv_step g st f o : inv g st f -> history_ok g st [o] -> inv g (fst (sstep st o)) (f_step f o).
+Lemma f_add_setid f hd root a : f_setid (fst (f_add f hd root a)) = f_setid f.
+Proof. unfold f_add. destruct (s_add (f_set f) hd a); reflexivity. Qed.
+
+Lemma bs_add_highest st hd root a : bs_highest (fst (bs_add st hd root a)) = bs_highest st.
+Proof. unfold bs_add. destruct (add_block (bs_tree st) hd a); reflexivity. Qed.
+
+Lemma inv_step g st f o : inv2 g st f -> history_ok g [o] -> inv2 g (fst (sstep st o)) (f_step f o).
 Proof.
   intros I (H & _). destruct o as [hd root a|h r s]; simpl.
-  - apply (inv_add g st f hd root a I H).
-  - destruct (request_step g st f h r s I H) as (Hadm & Href).
-    destruct (f_admissible f h) eqn:Ha.
+  - destruct I as (I & Es). split.
+    + apply (inv_add g st f hd root a I H).
+    + rewrite bs_add_highest, f_add_setid. exact Es.
+  - destruct (request_step g st f h r s I) as (Hadm & Href).
+    destruct (f_accepts f h s) eqn:Ha.
     + destruct (Hadm eq_refl) as (st' & -> & I'). exact I'.
-    + destruct (Href eq_refl) as (c & ->). rewrite (f_fin_refused f h Ha). exact I.
+    + destruct (Href eq_refl) as (c & ->). unfold f_request. rewrite Ha. exact I.
 Qed.
 
-Theorem inv_run g ops : forall st f, inv g st f -> history_ok g st ops -> inv g (srun st ops) (frun f ops).
+Theorem inv_run g ops : forall st f, inv2 g st f -> history_ok g ops -> inv2 g (srun st ops) (frun f ops).
 Proof.
   induction ops as [|o r IH]; intros st f I H; [exact I|].
   simpl. destruct H as (H1 & H2). apply IH; auto. apply inv_step; auto. split; [exact H1|exact Logic.I].
-Qed.
-
-Lemma history_ok_app g ops1 : forall st ops2,
-  history_ok g st (ops1 ++ ops2) -> history_ok g st ops1 /\ history_ok g (srun st ops1) ops2.
-Proof.
-  induction ops1 as [|o r IH]; intros st ops2 H; simpl in *; [auto|].
-  destruct H as (H1 & H2). destruct (IH _ _ H2) as (A & B). auto.
 Qed.
 
 (* an admissible target descends from the current head through parent links *)
@@ -219,10 +310,95 @@ Definition w17_blocks : list (N * N) := [(100, 1000); (1, 1001); (2, 1002); (3, 
 Lemma prefix_leaves_abandoned_block :
   let st := srun (genesis_state 100 1000) w17_ops in
   let f := frun (f_genesis 100 1000) w17_ops in
-  check_finalisation f 4 (is_okb (snd (set_finalised_prefix st 4 1 0)))
+  check_finalisation f 4 0 (is_okb (snd (set_finalised_prefix st 4 1 0)))
                      (observe st w17_blocks [0; 1; 2])
                      (observe (fst (set_finalised_prefix st 4 1 0)) w17_blocks [0; 1; 2]) = false
   /\ has_header (fst (set_finalised_prefix st 4 1 0)) 2 = true
   /\ mem 1002 (bs_tries (fst (set_finalised_prefix st 4 1 0))) = true
   /\ f_abandoned (f_fin f 4) 2 = true.
 Proof. vm_compute. repeat split; reflexivity. Qed.
+
+(* The pinned order of SetFinalisedHash (set id compared in setHighestRoundAndSetID, after
+   handleFinalisedBlock and after the finalised-hash key was put), before
+   fixes/C17-setid-check-before-write.patch.  genesis -> 1 -> 2; block 1 is finalised in set 1.
+   A request for block 2 with set id 0 is refused BUT block 2 has left unfinalisedBlocks and the
+   number index 2 was written; the same target with set id 1, which the specification accepts,
+   is then refused for ever ("failed to find block in unfinalised block map"). *)
+Definition w17s_ops : list sop :=
+  [SAdd (mkHeader 1 100 1 DPrimary) 1001 0%Z; SAdd (mkHeader 2 1 2 DPrimary) 1002 0%Z; SFin 1 1 1].
+Definition w17s_blocks : list (N * N) := [(100, 1000); (1, 1001); (2, 1002)].
+
+Lemma late_setid_changes_state :
+  let st := srun (genesis_state 100 1000) w17s_ops in
+  let f := frun (f_genesis 100 1000) w17s_ops in
+  let st' := fst (set_finalised_late st 2 2 0) in
+  f_accepts f 2 0 = false
+  /\ snd (set_finalised_late st 2 2 0) = Err e_setid
+  /\ check_finalisation f 2 0 false (observe st w17s_blocks [0; 1; 2]) (observe st' w17s_blocks [0; 1; 2]) = false
+  /\ lookup 2 (bs_unfin st) <> None /\ lookup 2 (bs_unfin st') = None
+  /\ lookup 2 (bs_num st) = None /\ lookup 2 (bs_num st') = Some 2
+  /\ f_accepts f 2 1 = true
+  /\ snd (set_finalised_late st' 2 3 1) = Err e_missing_block
+  (* the repaired order refuses the stale set id without touching the state and then accepts *)
+  /\ set_finalised st 2 2 0 = (st, Err e_setid)
+  /\ snd (set_finalised st 2 3 1) = Ok tt.
+Proof. vm_compute. repeat split; try reflexivity; intro; discriminate. Qed.
+
+(* ------------------------------------------------------------------ the statements of Properties.v *)
+
+Lemma monotone_or_unchanged g groot ops h round setid :
+  history_ok g ops ->
+  let st := srun (genesis_state g groot) ops in
+  let f := frun (f_genesis g groot) ops in
+  (f_accepts f h setid = true ->
+     descends (s_blocks (f_set f)) (s_root (f_set f)) h
+     /\ exists st', set_finalised st h round setid = (st', Ok tt)
+                    /\ highest_finalised_hash st' = Ok h)
+  /\ (f_accepts f h setid = false -> exists c, set_finalised st h round setid = (st, Err c)).
+Proof.
+  intros H st f.
+  pose proof (inv_run g ops _ _ (inv2_genesis g groot) H) as I. fold st f in I.
+  destruct (request_step g st f h round setid I) as (A & B). split; [|exact B].
+  intros Ha. pose proof Ha as Ha'. unfold f_accepts in Ha'. apply andb_true_iff in Ha' as (Hadm & _).
+  split; [exact (admissible_descends g st f h (proj1 I) Hadm)|].
+  destruct (A Ha) as (st' & E & (I' & _)). exists st'. split; auto.
+  rewrite (obs_highest g st' _ I'). destruct (f_request_set f h setid Ha) as (-> & _).
+  rewrite (f_fin_root f h Hadm). reflexivity.
+Qed.
+
+Lemma head_moves_only_to_descendants g groot ops h round setid :
+  history_ok g ops ->
+  let st := srun (genesis_state g groot) ops in
+  let f := frun (f_genesis g groot) ops in
+  exists x, highest_finalised_hash (fst (set_finalised st h round setid)) = Ok x
+            /\ descends (s_blocks (f_set f)) (s_root (f_set f)) x.
+Proof.
+  intros H st f.
+  pose proof (inv_run g ops _ _ (inv2_genesis g groot) H) as I. fold st f in I.
+  destruct (request_step g st f h round setid I) as (A & B).
+  destruct (f_accepts f h setid) eqn:Ha.
+  - pose proof Ha as Ha'. unfold f_accepts in Ha'. apply andb_true_iff in Ha' as (Hadm & _).
+    destruct (A eq_refl) as (st' & E & (I' & _)). exists h. rewrite E. cbn [fst]. split.
+    + rewrite (obs_highest g st' _ I'). destruct (f_request_set f h setid Ha) as (-> & _).
+      rewrite (f_fin_root f h Hadm). reflexivity.
+    + exact (admissible_descends g st f h (proj1 I) Hadm).
+  - destruct (B eq_refl) as (c & E). exists (s_root (f_set f)). rewrite E. cbn [fst]. split.
+    + exact (obs_highest g st f (proj1 I)).
+    + apply d_refl.
+Qed.
+
+Lemma no_leftovers g groot ops x :
+  history_ok g ops ->
+  let st := srun (genesis_state g groot) ops in
+  let f := frun (f_genesis g groot) ops in
+  f_abandoned f x = true ->
+  has_header st x = false /\ get_header st x = None /\ lookup x (bs_unfin st) = None
+  /\ forall i, lookup x (f_all f) = Some i -> mem (hi_root i) (bs_tries st) = true ->
+               root_shared_with_kept f (hi_root i) = true.
+Proof.
+  intros H st f Ha.
+  pose proof (proj1 (inv_run g ops _ _ (inv2_genesis g groot) H)) as I. fold st f in I.
+  destruct (obs_abandoned g st f I x Ha) as (Hu & Hh).
+  unfold has_header, get_header. rewrite Hu, Hh. repeat split; auto.
+  intros i _ Hm. exact (obs_tries g st f I _ Hm).
+Qed.
